@@ -148,6 +148,21 @@ def cases(rng, tier):
         for nregbits, nloose in ((0, 1), (2, 0), (1, 1), (0, 0), (0, 2)):
             yield ("validate", {"what": "no_classical", "nregbits": nregbits, "nloose": nloose, "fn": fn, "measure": rng.random() < 0.5,
                                 "always_oracle": True})
+    # label sequences of every wrong length, incl. the empty one, as list / tuple / string (fixed generator: independent of the seed)
+    import random as _random
+    r0 = _random.Random(1811)
+    for length in ("empty", "one_less", "one_more", "single", "double"):
+        for form in ("list", "tuple", "str"):
+            p = _valid_problem(r0)
+            nq0 = p["nq"]
+            want = {"empty": 0, "one_less": nq0 - 1, "one_more": nq0 + 1, "single": 1, "double": 2 * nq0}[length]
+            if want == nq0:
+                continue
+            p["labels"] = (p["labels"] * 3)[:want]
+            p["labels_form"] = form
+            p["cls"] = "label_count"
+            p["always_oracle"] = True
+            yield ("pp", p)
     for _ in range(N):
         p = _valid_problem(rng)
         cls = rng.choice(["valid", "label_count", "obs_size", "phase", "cregs", "big_gate"])
@@ -298,6 +313,12 @@ def run_real(kind, payload):
     if kind == "pp":
         from qiskit_addon_cutting import partition_problem
         qc, bases, labels, obs = c10._objs(payload)
+        form = payload.get("labels_form")
+        if form == "tuple":
+            labels = tuple(labels)
+        elif form == "str":
+            # one character per qubit (the documented string form of partition labels)
+            labels = "".join("ABCDEFGH"[k % 8] for k in payload["labels"])
         before = _snap_pp(qc, labels, obs)
         try:
             partition_problem(qc, labels, obs)
